@@ -556,7 +556,7 @@ fn check_kernels(l: &ArrayRef, l_scalar: bool, r: &ArrayRef, r_scalar: bool, lv:
         evals += 1;
         let api = OPS[op];
         match catch(|| run_op(op, ld, rd)) {
-            Err(p) => report(rp, op, &p.fingerprint(), format!("{api} panicked: {} at {}:{} ({label} {form})", p.msg, p.file, p.line)),
+            Err(p) => report(rp, op, &crate::report::panic_fp(&p), format!("{api} panicked: {} at {}:{} ({label} {form})", p.msg, p.file, p.line)),
             Ok(Err(e)) => {
                 c_err += 1;
                 if supported {
